@@ -1,14 +1,17 @@
 #!/bin/sh
 # Build the framework from files on disk only (offline): regenerate coq/Gen from /repo,
-# full .vo build of the Rocq development, cargo build of the harness against /repo with hooks on.
-set -e
-cd "$(dirname "$0")/.."
+# full .vo build of the Rocq development, cargo build of the harness binaries of the claimed
+# properties against /repo with hooks on.  Work in progress of unclaimed properties must
+# never make the setup fail: every step is best effort, the checks themselves rebuild and
+# report what is broken.
+cd "$(dirname "$0")/.." || exit 2
 export CARGO_NET_OFFLINE=true
 mkdir -p build evidence replay
 python3 tools/rs2v.py "${VERIF_REPO:-/repo}" || echo "setup: translator reported a failure (checks will report it)"
-cd coq
-python3 ../tools/mkcoqproject.py && coq_makefile -f _CoqProject -o Makefile
-timeout 3000 make -j16 -k || echo "setup: some Coq files failed to build (checks will report it)"
-cd ../harness
+( cd coq && python3 ../tools/mkcoqproject.py && coq_makefile -f _CoqProject -o Makefile && timeout 5400 make -j16 -k ) > build/setup_coq.log 2>&1 || echo "setup: some Coq files failed to build (checks will report it; log: build/setup_coq.log)"
+cd harness || exit 0
 [ -f Cargo.lock ] || cp "${VERIF_REPO:-/repo}/Cargo.lock" Cargo.lock
-cargo build --offline --bins
+for p in $(grep -v '^#' ../tools/enabled.txt | tr 'A-Z' 'a-z'); do
+  cargo build --offline --bin "$p" > ../build/setup_cargo_$p.log 2>&1 || echo "setup: harness binary $p failed to build (its check will report it)"
+done
+exit 0
